@@ -505,4 +505,27 @@ def renderDef (s : SpecMacro) : List Tok :=
   s.pre ++ renderParams 0 s.delims ++ (if s.hashBrace then [.param, .bg] else [.bg])
     ++ (s.body.map renderItem).flatten ++ [.eg]
 
+/-- The binding of all parameters, **declaratively** (TeX §391–§401 in one relation; the
+executable `specBind` is proved equivalent in `Props/C02.lean`, `spec_bind_iff`).
+`Binds delims input args rest`: `delims` = one delimiter per parameter (`[]` = undelimited). -/
+inductive Binds : List (List Tok) → List Tok → List (List Tok) → List Tok → Prop
+  /-- no parameter left: nothing is consumed -/
+  | nil (inp : List Tok) : Binds [] inp [] inp
+  /-- undelimited: skip space tokens, take one token that is not a brace -/
+  | undelimTok (sps : List Tok) (t : Tok) (inp : List Tok) (ds : List (List Tok))
+      (as : List (List Tok)) (rest : List Tok) :
+      (∀ x ∈ sps, x = .sp) → t ≠ .sp → t ≠ .bg → t ≠ .eg → Binds ds inp as rest →
+      Binds ([] :: ds) (sps ++ t :: inp) ([t] :: as) rest
+  /-- undelimited: skip space tokens, take the contents of the group that follows -/
+  | undelimGroup (sps a inp : List Tok) (ds : List (List Tok)) (as : List (List Tok)) (rest : List Tok) :
+      (∀ x ∈ sps, x = .sp) → Balanced a → Binds ds inp as rest →
+      Binds ([] :: ds) (sps ++ .bg :: a ++ .eg :: inp) (a :: as) rest
+  /-- delimited by `d`: the shortest balanced `a` followed by `d`; one pair of braces is
+  removed iff `a` is a single group (`stripSpec`) -/
+  | delim (d a inp : List Tok) (ds : List (List Tok)) (as : List (List Tok)) (rest : List Tok) :
+      d ≠ [] → Balanced a →
+      (∀ a' r', a ++ d ++ inp = a' ++ d ++ r' → Balanced a' → a.length ≤ a'.length) →
+      Binds ds inp as rest →
+      Binds (d :: ds) (a ++ d ++ inp) (stripSpec a :: as) rest
+
 end C02
